@@ -87,7 +87,16 @@ def gen_session(rng):
     steps.append({"kind": "tree", "leaf": lt, "structure": "U" if mode == "otherT" else "T", "value": x2})
     if rng.random() < .6:
         steps.append({"kind": "arr", "dim": "n", "shape": [rng.choice([plain["n"], plain["n"], 9])]})   # the plain axis afterwards
-    return {"nocontext": False, "steps": steps}, (lt, mode, nleaves)
+    # finally a PLAIN axis whose name only ever occurred with '?': it is unbound, so any size must be accepted
+    probe = None
+    txt = json.dumps(lt)
+    if "?v" in txt:
+        probe = {"kind": "arr", "dim": "*v", "shape": [7, 7]}
+    elif "?k" in txt:
+        probe = {"kind": "arr", "dim": "k", "shape": [11]}
+    if probe is not None and rng.random() < .7:
+        steps.append(probe)
+    return {"nocontext": False, "steps": steps}, (lt, mode, nleaves, probe is not None and steps[-1] is probe)
 
 
 def S(*steps, nocontext=False):
@@ -108,6 +117,9 @@ CORPUS = [
     # a failing union alternative that had bound ?n must not leak nor disturb plain n
     (S({"kind": "arr", "dim": "n", "shape": [7]}, ts(["union", [A("?n 3"), A("?n 4")]], ["t", [arr([2, 4])]]), {"kind": "arr", "dim": "n", "shape": [9]}), ["acc", "acc", "rej"]),
     (S(ts(["union", [A("?n 3"), A("?k 4")]], ["t", [arr([5, 4])]]), ts(["union", [A("?n 3"), A("?k 4")]], ["t", [arr([6, 3])]])), ["acc", "acc"]),
+    # broadcastable per-position variadic: the binding of a position takes the broadcast result
+    (S(ts(A("*#?v"), ["t", [arr([1, 3])]]), ts(A("*#?v"), ["t", [arr([2, 3])]]), ts(A("*#?v"), ["t", [arr([5, 3])]]), {"kind": "arr", "dim": "*v", "shape": [4]}), ["acc", "acc", "rej", "acc"]),
+    (S(ts(A("*#?v n"), ["t", [arr([1, 3]), arr([4, 3])]]), ts(A("*#?v n"), ["t", [arr([2, 3]), arr([1, 3])]]), ts(A("*?v n"), ["t", [arr([2, 3]), arr([4, 3])]])), ["acc", "acc", "acc"]),
     # two structure names in one context
     (S(ts(A("?n"), ["t", [arr([3])]], "T"), ts(A("?n"), ["t", [arr([4])]], "U"), ts(A("?n"), ["t", [arr([4])]], "T")), ["acc", "acc", "rej"]),
     # misuse: outside a structured PyTree, and beneath two
@@ -154,7 +166,10 @@ def main():
                 R.violation("property", "documented behaviour of '?' axes: expected %s, implementation %s for %s" % (mt[1], vs, json.dumps(sess["steps"])), {"session": sess, "expected": mt[1], "impl": vs},
                             key={"kind": "corpus", "case": "structureless-nested" if nested_plain else "other", "impl": str(vs)})
         else:
-            lt, mode, nleaves = mt[1]
+            lt, mode, nleaves, probed = mt[1]
+            if probed and vs[-1] != "acc":
+                R.violation("property", "a plain axis %r whose name was only ever used with '?' is not free: final check gives %s, expected acc (%s)" % (sess["steps"][-1]["dim"], vs[-1], json.dumps(sess["steps"])),
+                            {"session": sess}, key={"kind": "plain-axis-after-question"})
             R.count("mode:%s:%s" % (mode, vs[-2] if len(vs) >= 2 else vs[-1]))
             # model-independent expectations for the single-annotation leaf types
             if lt[0] == "arr" and lt[2] in SIMPLE:
@@ -165,7 +180,7 @@ def main():
                     R.violation("property", "leaf type %s, second tree %s: expected acc then %s, implementation %s then %s (%s)" % (lt[2], mode, want2, v1, v2, json.dumps(sess["steps"])),
                                 {"session": sess, "mode": mode}, key={"kind": "per-position", "mode": mode})
                 # the plain axis n is never disturbed
-                if sess["steps"][0]["kind"] == "arr" and sess["steps"][-1]["kind"] == "arr":
+                if sess["steps"][0]["kind"] == "arr" and sess["steps"][-1]["kind"] == "arr" and not probed:
                     want = "acc" if sess["steps"][-1]["shape"][0] == sess["steps"][0]["shape"][0] else "rej"
                     if vs[-1] != want:
                         R.violation("property", "plain axis n was disturbed by '?n' axes: final check of n=%s gives %s, expected %s (%s)" % (sess["steps"][-1]["shape"], vs[-1], want, json.dumps(sess["steps"])),
